@@ -770,10 +770,9 @@ func (g *GhostDB) execInsert(st *State, stmt *SQLStmt, t *Table, base *sqlEnv, s
 			args = append(args, pt)
 		}
 	}
-	rows := g.countTerm(srcVer, "sql."+sqlHash(sel.Where), nil)
 	_ = args
 	// count depends on the parameters mentioned by the WHERE clause only
-	rows = g.countTerm(srcVer, "sql."+sqlHash(sel.Where), whereParams(g, st, sel.Where, base.params))
+	rows := g.countTerm(srcVer, "sql."+sqlHash(sel.Where), whereParams(g, st, sel.Where, base.params))
 	st.assume(Ge(rows, IntLit(0)))
 	g.lastSetHit = &setHit{table: src, pre: srcVer, hit: func(st *State, k, old Term) Term { h, _ := hitAt(st, k); return h }, rows: rows}
 	return rows
